@@ -276,7 +276,11 @@ def run(tier: str) -> int:
                         stats[f"family:{res[0]}"] += 1
                         continue
                     fam_n += 1
-                    d.ask(f"teal tfam {res[1].encode().hex()}")
+                    pa = d.ask(f"teal tfam {res[1].encode().hex()}")
+                    if not pa.startswith("ok"):
+                        # the text is not an assemblable program under this setting: as different from the others as can be
+                        outs[(v, json.dumps(o, sort_keys=True))] = ("not assemblable: " + pa[:80], res[1])
+                        continue
                     out = d.ask("exec tfam cfam 200000")
                     if out.startswith("done"):
                         outs[(v, json.dumps(o, sort_keys=True))] = (out.split("slots")[0].strip(), res[1])
